@@ -255,6 +255,38 @@ def C02():
                 outside=["parsing the connection confirm from bytes", "OpenSSL certificate validation"])
 
 
+def C10():
+    jobs = [
+        MirJob("c10_mir_bitmap_dispatch", "read_fast_path: the callback is invoked at most once per rectangle and no rectangle is skipped; only bitmap updates reach it and other kinds continue with the next update; every BitmapEvent field is taken from the rectangle field of the same meaning; is_compress = flags & 1",
+               mirjobs.bitmap_dispatch),
+        MirJob("c10_mir_data_state_only", "bitmap events are produced only while the client is in the Data state (shared with C12)", mirjobs.global_read),
+    ]
+    return Prop("C10", [], jobs,
+                assumptions=["the rectangles reach read_fast_path's loops in wire order: Array::read pushes parsed elements in the order read (c18_data_array) - but parsing ts_fp_update / ts_bitmap_data from bytes is NOT executed"],
+                text="Reduced claim, decided on the MIR of the real read_fast_path: per iteration of the update and rectangle loops, which paths invoke the callback, how often, for which update kinds, and from which wire fields each BitmapEvent field is built (dataflow on the explored path + SMT for the compression flag).",
+                note="NOT covered: that the update/rectangle lists handed to these loops are exactly what the server sent - parsing them is a nested size-dependent Component parse that CBMC cannot execute (DESIGN §2); data lengths 0..65535, long/short fast-path forms are C13's subject. This check decides the dispatch half of the property only.",
+                technique="MIR reachability (z3 fixedpoint) and symbolic path enumeration with dataflow of read_fast_path",
+                design_ref="DESIGN.md §4 C10 (reduced after E3 was built)",
+                outside=["parsing fast-path updates and bitmap rectangles from bytes", "byte-exact data payloads"])
+
+
+def C11():
+    jobs = [
+        MirJob("c11_mir_event_mapping", "RdpClient::write: for every pointer event (all x, y, buttons, press states) flags = button bit | down bit and x, y unchanged; for every key event flags = release bit iff not down and the scancode unchanged (SMT, cvc5 cross-check)", mirjobs.input_mapping),
+        MirJob("c11_mir_one_pdu_per_event", "each layer from write_input_event down to Link::write makes at most one downstream write per call, exactly one input event per PDU, returns an error when nothing is sent and propagates the downstream error", mirjobs.one_pdu_per_event),
+        MirJob("c11_mir_gating", "event kinds that cannot be sent are refused before any emitter; input outside the Data state is refused with nothing written (shared with C12)", mirjobs.input_gating),
+        Kani("c04_pointer_event", "TS_POINTER_EVENT body carries flags, x, y exactly (all values)", bounds={"depth": 1}, symbolic=["flags", "x", "y"], functions=["core::global::ts_pointer_event"], timeout=900, mem_gb=8),
+        Kani("c04_keyboard_event", "TS_KEYBOARD_EVENT body carries flags and scancode exactly (all values)", bounds={"depth": 1}, symbolic=["flags", "code"], functions=["core::global::ts_keyboard_event"], timeout=900, mem_gb=8),
+    ]
+    return Prop("C11", [("core/tpkt.rs", "tpkt.rs"), ("core/x224.rs", "x224.rs"), ("core/global.rs", "global.rs")], jobs, lowerings=["L2"],
+                assumptions=[S1, S6, "submission order is preserved because every layer is synchronous (&mut self) and makes exactly one downstream write per call"], stubs=[S1],
+                text="Reduced claim: the value mapping of every submitted event (SMT over all coordinates, scancodes, buttons, press states), the event bodies byte-exact (E1), and 'exactly one PDU per event' decided layer by layer on the MIR (one downstream write per call, errors propagated, one event per PDU).",
+                note="NOT covered: the bytes of the share/MCS/X.224/TPKT framing around the event (nested emitters, CBMC does not finish; their structure is C14's subject), interleaving with server traffic.",
+                technique="MIR->SMT symbolic execution (z3, cvc5) of the event mapping and per-layer write structure; Kani for the event bodies",
+                design_ref="DESIGN.md §4 C11 (reduced after E3 was built)",
+                outside=["byte-level framing of the input PDU", "concurrent server traffic"])
+
+
 def C12():
     jobs = [
         MirJob("c12_mir_automaton", "global::Client::read: per state arm, the state advances only to the required successor and only when that arm's recogniser accepted; demand-active is answered by exactly one confirm-active then one finalization before the state store; a failed write keeps the state; no other arm writes; bitmaps (read_fast_path) only in Data",
@@ -438,9 +470,9 @@ def C18():
                 outside=["records with size-dependent or skippable fields (Component::read/write with MessageOption::Size/SkipField: CBMC does not finish)", "nested containers", "BER/DER (yasna) structures", "GCC conference blocks", "Version::from table (known finding D14 is checked by c18_mir_version_table)"])
 
 
-PROPS = {"C01": C01, "C02": C02, "C04": C04, "C05": C05, "C06": C06, "C07": C07, "C08": C08, "C09": C09, "C12": C12, "C13": C13, "C14": C14, "C16": C16, "C17": C17, "C18": C18, "C19": C19}
+PROPS = {"C01": C01, "C02": C02, "C04": C04, "C05": C05, "C06": C06, "C07": C07, "C08": C08, "C09": C09, "C10": C10, "C11": C11, "C12": C12, "C13": C13, "C14": C14, "C16": C16, "C17": C17, "C18": C18, "C19": C19}
 
-MIR_PROPS = ["C01", "C02", "C04", "C05", "C06", "C07", "C08", "C12", "C13", "C14", "C16", "C17", "C18"]
+MIR_PROPS = ["C01", "C02", "C04", "C05", "C06", "C07", "C08", "C10", "C11", "C12", "C13", "C14", "C16", "C17", "C18"]
 
 _TODO = "not claimed yet: machinery for this property is still being built (see DESIGN.md §4 for the plan)"
 NOT_APPLICABLE = {
